@@ -1644,12 +1644,18 @@ class Cell(Bucket):
         """Remove blacklisted apps from servers.
         """
         for app in queue:
-            if app.blacklisted and app.server:
+            if not app.blacklisted:
+                continue
+
+            if app.server:
                 server = servers[app.server]
                 _LOGGER.info('Removing blacklisted app %s from %s',
                              app.name, server.name)
                 server.remove(app.name)
-                app.release_identity()
+
+            # A pending app may still hold an identity (its server was
+            # removed); blacklisted apps are skipped by the placement loop.
+            app.release_identity()
 
     def _find_placements(self, queue, servers):
         """Run the queue and find placements.
